@@ -21,8 +21,12 @@ namespace D2V.Edit
 abbrev Path := List String
 abbrev Attrs := List (String × String)
 
+/-- ASCII lower-casing, written over `List Char` so that the kernel can evaluate it in `decide` (same function as
+    `String.toLower`; Go folds more of Unicode, the generators keep IDs ASCII) -/
+def lc (s : String) : String := String.ofList (s.toList.map Char.toLower)
+
 /-- d2 IDs are case-insensitive (`Object.Children` is keyed by the lower-cased ID, `strings.EqualFold` in HasEdge) -/
-def keyOf (p : Path) : Path := p.map String.toLower
+def keyOf (p : Path) : Path := p.map lc
 
 def samePath (p q : Path) : Bool := keyOf p == keyOf q
 
@@ -95,7 +99,7 @@ def Diagram.wf (d : Diagram) : Bool :=
 def reroot (x n p : Path) : Path := if isPre x p then n ++ p.drop x.length else p
 
 def renOf (ren : List (String × String)) (c : String) : String :=
-  match ren.find? (fun kv => kv.1.toLower == c.toLower) with
+  match ren.find? (fun kv => lc kv.1 == lc c) with
   | some kv => kv.2
   | none => c
 
@@ -161,10 +165,14 @@ def setEdgeLabel (d : Diagram) (src dst : Path) (sa da : Bool) (idx : Nat) (v : 
 def setEdgeAttr (d : Diagram) (src dst : Path) (sa da : Bool) (idx : Nat) (k : String) (v : Option String) : Diagram :=
   { d with edges := d.edges.map fun e => if isEdge e src dst sa da idx then { e with attrs := setAttrs e.attrs k v } else e }
 
+/-- the common shape of delete / rename / move / reconnect: some elements are dropped, the others are transformed
+    one by one (the transformers never touch label or attributes) -/
+def applyMap (d : Diagram) (keepO : Obj → Bool) (keepE : Edge → Bool) (fo : Obj → Obj) (fe : Edge → Edge) : Diagram :=
+  { objs := (d.objs.filter keepO).map fo, edges := (d.edges.filter keepE).map fe }
+
 /-- `Delete(x)` of an object: `x` and the connections attached to it disappear, the children are hoisted to the parent -/
 def deleteObj (d : Diagram) (x : Path) (ren : List (String × String)) : Diagram :=
-  { objs := (d.objs.filter fun o => !samePath o.path x).map (Obj.mapPath (hoist x ren)),
-    edges := (d.edges.filter fun e => !e.touches x).map (Edge.mapPaths (hoist x ren)) }
+  applyMap d (fun o => !samePath o.path x) (fun e => !e.touches x) (Obj.mapPath (hoist x ren)) (Edge.mapPaths (hoist x ren))
 
 /-- the choice of new names is valid: a child is renamed exactly when its hoisted path is taken by an object that
     is not `x` itself, and the hoisted paths are pairwise distinct and distinct from every remaining object -/
@@ -175,23 +183,39 @@ def validHoist (d : Diagram) (x : Path) (ren : List (String × String)) : Bool :
     let name := c.path.getLast?.getD ""
     let taken := others.any fun q => samePath q (x.dropLast ++ [name])
     let newName := renOf ren name
-    (taken == (newName.toLower != name.toLower)) &&
+    (taken == (lc newName != lc name)) &&
     !(others.any fun q => samePath q (x.dropLast ++ [newName]))) &&
   nodupKeys (children.map fun c => x.dropLast ++ [renOf ren (c.path.getLast?.getD "")])
 
+def renumberAfter (e : Edge) (f : Edge) : Edge :=
+  if f.sameGroup e && e.idx < f.idx then { f with idx := f.idx - 1 } else f
+
 /-- `Delete("(a -> b)[i]")`: exactly that connection disappears, later parallel connections move down by one -/
 def deleteEdge (d : Diagram) (e : Edge) : Diagram :=
-  { d with edges := (d.edges.filter fun f => !(f.sameGroup e && f.idx == e.idx)).map fun f =>
-      if f.sameGroup e && e.idx < f.idx then { f with idx := f.idx - 1 } else f }
+  applyMap d (fun _ => true) (fun f => !(f.sameGroup e && f.idx == e.idx)) id (renumberAfter e)
 
 /-- `Rename` / same-scope `Move` / `Move(…, includeDescendants = true)`: `x` becomes `n`, descendants follow -/
 def moveWith (d : Diagram) (x n : Path) : Diagram :=
-  { objs := d.objs.map (Obj.mapPath (reroot x n)), edges := d.edges.map (Edge.mapPaths (reroot x n)) }
+  applyMap d (fun _ => true) (fun _ => true) (Obj.mapPath (reroot x n)) (Edge.mapPaths (reroot x n))
+
+def moveWithoutPath (x n : Path) (ren : List (String × String)) (p : Path) : Path :=
+  if samePath p x then n else hoist x ren p
 
 /-- cross-scope `Move(…, includeDescendants = false)`: `x` becomes `n`, its children stay in the former parent -/
 def moveWithout (d : Diagram) (x n : Path) (ren : List (String × String)) : Diagram :=
-  let f : Path → Path := fun p => if samePath p x then n else hoist x ren p
-  { objs := d.objs.map (Obj.mapPath f), edges := d.edges.map (Edge.mapPaths f) }
+  applyMap d (fun _ => true) (fun _ => true) (Obj.mapPath (moveWithoutPath x n ren)) (Edge.mapPaths (moveWithoutPath x n ren))
+
+/-- `ReconnectEdge(e, src', dst')`: `e` gets the new endpoints and the index `i` in its new parallel group; the
+    later connections of the old group move down by one, those of the new group from `i` on move up by one -/
+def reconnectEdge (e : Edge) (s t : Path) (i : Nat) (f : Edge) : Edge :=
+  if f.sameGroup e && f.idx == e.idx then { f with src := s, dst := t, idx := i }
+  else
+    let f1 := renumberAfter e f
+    let e' : Edge := { e with src := s, dst := t }
+    if f1.sameGroup e' && i ≤ f1.idx then { f1 with idx := f1.idx + 1 } else f1
+
+def reconnect (d : Diagram) (e : Edge) (s t : Path) (i : Nat) : Diagram :=
+  applyMap d (fun _ => true) (fun _ => true) id (reconnectEdge e s t i)
 
 /-- the destination is acceptable: new, its parent exists, and it does not lie inside the moved object -/
 def validDest (d : Diagram) (x n : Path) : Bool :=
@@ -202,30 +226,59 @@ def validDest (d : Diagram) (x n : Path) : Bool :=
 inductive Id where
   | obj (p : Path)
   | edge (src dst : Path) (sa da : Bool) (idx : Nat)
-deriving Repr, BEq, DecidableEq
+deriving Repr, DecidableEq
 
 def Obj.id (o : Obj) : Id := .obj (keyOf o.path)
 def Edge.id (e : Edge) : Id := .edge (keyOf e.src) (keyOf e.dst) e.sa e.da e.idx
 
-def pathDeltas (d : Diagram) (keepO : Obj → Bool) (keepE : Edge → Bool) (f : Path → Path) : List (Id × Id) :=
-  ((d.objs.filter keepO).filterMap fun o =>
-      let o' := o.mapPath f
-      if Obj.id o' == Obj.id o then none else some (Obj.id o, Obj.id o')) ++
-  ((d.edges.filter keepE).filterMap fun e =>
-      let e' := e.mapPaths f
-      if Edge.id e' == Edge.id e then none else some (Edge.id e, Edge.id e'))
+end Spec
 
+/-- one element followed across an edit: its (kind, label), its old ID, its new ID (`none` = removed) -/
+structure Track (ι : Type) where
+  lab : Bool × String
+  old : ι
+  new : Option ι
+
+def Track.before {ι : Type} (rs : List (Track ι)) : List ((Bool × String) × ι) := rs.map fun r => (r.lab, r.old)
+
+/-- the predicted entry of one element: present iff it survives with a different ID -/
+def Track.delta {ι : Type} [DecidableEq ι] (r : Track ι) : Option (ι × ι) :=
+  match r.new with
+  | some n => if n = r.old then none else some (r.old, n)
+  | none => none
+/-- the prediction: an entry for every surviving element whose ID changes, nothing else -/
+def Track.deltas {ι : Type} [DecidableEq ι] (rs : List (Track ι)) : List (ι × ι) := rs.filterMap Track.delta
+def Track.image {ι : Type} (r : Track ι) : Option ((Bool × String) × ι) := r.new.map fun n => (r.lab, n)
+def Track.after {ι : Type} (rs : List (Track ι)) : List ((Bool × String) × ι) := rs.filterMap Track.image
+
+namespace Spec
+
+def tracks (d : Diagram) (keepO : Obj → Bool) (keepE : Edge → Bool) (fo : Obj → Obj) (fe : Edge → Edge) : List (Track Id) :=
+  d.objs.map (fun o => ⟨(true, o.label), Obj.id o, if keepO o then some (Obj.id (fo o)) else none⟩) ++
+  d.edges.map (fun e => ⟨(false, e.label), Edge.id e, if keepE e then some (Edge.id (fe e)) else none⟩)
+
+/-- the ID-delta prediction for an edit of the `applyMap` shape -/
+def applyDeltas (d : Diagram) (keepO : Obj → Bool) (keepE : Edge → Bool) (fo : Obj → Obj) (fe : Edge → Edge) : List (Id × Id) :=
+  Track.deltas (tracks d keepO keepE fo fe)
+
+/-- `DeleteIDDeltas` -/
 def deleteObjDeltas (d : Diagram) (x : Path) (ren : List (String × String)) : List (Id × Id) :=
-  pathDeltas d (fun o => !samePath o.path x) (fun e => !e.touches x) (hoist x ren)
+  applyDeltas d (fun o => !samePath o.path x) (fun e => !e.touches x) (Obj.mapPath (hoist x ren)) (Edge.mapPaths (hoist x ren))
 
 def deleteEdgeDeltas (d : Diagram) (e : Edge) : List (Id × Id) :=
-  (d.edges.filter fun f => f.sameGroup e && e.idx < f.idx).map fun f => (Edge.id f, Edge.id { f with idx := f.idx - 1 })
+  applyDeltas d (fun _ => true) (fun f => !(f.sameGroup e && f.idx == e.idx)) id (renumberAfter e)
 
+/-- `RenameIDDeltas` / `MoveIDDeltas(…, includeDescendants = true)` -/
 def moveWithDeltas (d : Diagram) (x n : Path) : List (Id × Id) :=
-  pathDeltas d (fun _ => true) (fun _ => true) (reroot x n)
+  applyDeltas d (fun _ => true) (fun _ => true) (Obj.mapPath (reroot x n)) (Edge.mapPaths (reroot x n))
 
+/-- `MoveIDDeltas(…, includeDescendants = false)` across scopes -/
 def moveWithoutDeltas (d : Diagram) (x n : Path) (ren : List (String × String)) : List (Id × Id) :=
-  pathDeltas d (fun _ => true) (fun _ => true) (fun p => if samePath p x then n else hoist x ren p)
+  applyDeltas d (fun _ => true) (fun _ => true) (Obj.mapPath (moveWithoutPath x n ren)) (Edge.mapPaths (moveWithoutPath x n ren))
+
+/-- `ReconnectEdgeIDDeltas` -/
+def reconnectDeltas (d : Diagram) (e : Edge) (s t : Path) (i : Nat) : List (Id × Id) :=
+  applyDeltas d (fun _ => true) (fun _ => true) id (reconnectEdge e s t i)
 
 end Spec
 
@@ -305,7 +358,7 @@ def createClauses (b a : Diagram) (ret : Target) : List Clause :=
 /-- keyword-valued attributes are compared up to letter case -/
 def valueMatches (want got : Option String) : Bool :=
   match want, got with
-  | some w, some g => w == g || w.toLower == g.toLower
+  | some w, some g => w == g || lc w == lc g
   | none, none => true
   | _, _ => false
 
@@ -458,25 +511,25 @@ def lookupD {ι : Type} [BEq ι] (m : List (ι × ι)) (i : ι) : ι :=
   | some kv => kv.2
   | none => i
 
-def inDom {ι : Type} [BEq ι] (m : List (ι × ι)) (i : ι) : Bool := m.any (·.1 == i)
+def inDom {ι : Type} [BEq ι] (m : List (ι × ι)) (i : ι) : Bool := (m.find? (·.1 == i)).isSome
 
 /-- `before`, `after`: (label, id) of every element.  Every surviving element has the predicted ID (or its old one
     when nothing is predicted); no prediction for a removed element. -/
-def deltasAgree {ι : Type} [BEq ι] (before after : List (String × ι)) (deltas : List (ι × ι)) : Bool :=
-  before.all fun (l, i) =>
-    match after.find? (·.1 == l) with
-    | some (_, i') => i' == lookupD deltas i
-    | none => !inDom deltas i
+def deltasAgree {L ι : Type} [BEq L] [BEq ι] (before after : List (L × ι)) (deltas : List (ι × ι)) : Bool :=
+  before.all fun li =>
+    match after.find? (·.1 == li.1) with
+    | some li' => li'.2 == lookupD deltas li.2
+    | none => !inDom deltas li.2
 
-def firstDisagreement {ι : Type} [BEq ι] (before after : List (String × ι)) (deltas : List (ι × ι)) :
-    Option (String × ι × Option ι) :=
-  (before.find? fun (l, i) =>
-    match after.find? (·.1 == l) with
-    | some (_, i') => !(i' == lookupD deltas i)
-    | none => inDom deltas i).map fun (l, i) => (l, i, (after.find? (·.1 == l)).map (·.2))
+def firstDisagreement {L ι : Type} [BEq L] [BEq ι] (before after : List (L × ι)) (deltas : List (ι × ι)) :
+    Option (L × ι × Option ι) :=
+  (before.find? fun li =>
+    match after.find? (·.1 == li.1) with
+    | some li' => !(li'.2 == lookupD deltas li.2)
+    | none => inDom deltas li.2).map fun li => (li.1, li.2, (after.find? (·.1 == li.1)).map (·.2))
 
-def Diagram.elems (d : Diagram) : List (String × Spec.Id) :=
-  d.objs.map (fun o => ("o:" ++ o.label, Spec.Obj.id o)) ++ d.edges.map (fun e => ("e:" ++ e.label, Spec.Edge.id e))
+def Diagram.elems (d : Diagram) : List ((Bool × String) × Spec.Id) :=
+  d.objs.map (fun o => ((true, o.label), Spec.Obj.id o)) ++ d.edges.map (fun e => ((false, e.label), Spec.Edge.id e))
 
 /-! ### C41 — edits stay within their board -/
 
@@ -487,19 +540,52 @@ structure Board where
   g : Diagram
 deriving Repr, BEq, Inhabited
 
-def inheritingHops (kinds : List String) : Bool := kinds.all fun k => k == "scenarios" || k == "steps"
+/-! Inheritance between boards (d2ir `compileBoards`): a scenario starts from a copy of its parent board, the first
+    step of a sequence from its parent board and every later step from the step before it; a layer starts empty.
+    Boards are listed parent before child and step before next step, so a board's base precedes it. -/
 
-/-- board `c` may legitimately change when board `t` (the edit's target) is edited:
-    `t` itself; boards below `t` reached through scenarios/steps only (they inherit `t`'s content);
-    and, when `t` is a step, the later steps of the same sequence (each step inherits the previous one) with what
-    inherits from them -/
+def indexOf? {α : Type} (p : α → Bool) : List α → Option Nat
+  | [] => none
+  | a :: r => if p a then some 0 else (indexOf? p r).map (· + 1)
+
+/-- index (in `boards`) of the board `b` inherits from -/
+def baseOf (boards : List Board) (b : Board) : Option Nat :=
+  match b.kinds.getLast? with
+  | some "scenarios" => indexOf? (fun c => c.path == b.path.dropLast) boards
+  | some "steps" =>
+    if b.pos == 0 then indexOf? (fun c => c.path == b.path.dropLast) boards
+    else indexOf? (fun c => c.path.dropLast == b.path.dropLast && c.kinds == b.kinds && c.pos + 1 == b.pos) boards
+  | _ => none
+
+/-- `dependsOn bases t`: for every board index, does it (transitively) inherit from board `t` (or is it `t`)?
+    `bases[i]` is the index of the base of board `i` (always smaller than `i`). -/
+def depBit (t : Nat) (acc : List Bool) (b : Option Nat) : Bool :=
+  acc.length == t || (match b with | some j => acc.getD j false | none => false)
+
+def depsAux (t : Nat) : List (Option Nat) → List Bool → List Bool
+  | [], acc => acc
+  | b :: r, acc => depsAux t r (acc ++ [depBit t acc b])
+
+def dependsOn (bases : List (Option Nat)) (t : Nat) : List Bool := depsAux t bases []
+
+def contentOf (overlay : Diagram → Diagram → Diagram) (acc : List Diagram) (b : Option Nat) (o : Diagram) : Diagram :=
+  match b with
+  | some j => overlay (acc.getD j default) o
+  | none => o
+
+def contentsAux (overlay : Diagram → Diagram → Diagram) : List (Option Nat) → List Diagram → List Diagram → List Diagram
+  | b :: r, o :: os, acc => contentsAux overlay r os (acc ++ [contentOf overlay acc b o])
+  | _, _, acc => acc
+
+/-- the compiled content of every board: its own declarations laid over the content of its base -/
+def contents (overlay : Diagram → Diagram → Diagram) (bases : List (Option Nat)) (own : List Diagram) : List Diagram :=
+  contentsAux overlay bases own []
+
+/-- board `c` may legitimately change when board `t` (the edit's target) is edited -/
 def mayChange (boards : List Board) (t c : Board) : Bool :=
-  c.path == t.path ||
-  (t.path.isPrefixOf c.path && t.kinds.isPrefixOf c.kinds && inheritingHops (c.kinds.drop t.path.length)) ||
-  (t.kinds.getLast? == some "steps" && t.path.length ≤ c.path.length &&
-    c.path.take (t.path.length - 1) == t.path.dropLast && c.kinds.take t.path.length == t.kinds &&
-    inheritingHops (c.kinds.drop t.path.length) &&
-    (boards.any fun s => s.path == c.path.take t.path.length && s.kinds == t.kinds && t.pos < s.pos))
+  match indexOf? (fun b => b.path == t.path) boards, indexOf? (fun b => b.path == c.path) boards with
+  | some ti, some ci => (dependsOn (boards.map (baseOf boards)) ti).getD ci true
+  | _, _ => true
 
 def sameDiagram (x y : Diagram) : Bool :=
   x.objs.length == y.objs.length && x.edges.length == y.edges.length &&
